@@ -327,7 +327,10 @@ def run(ctx):
                why="a channel that forgets its signal never wakes its sleeping receiver; one that keeps a stale signal raises somebody else's")
     check_init(ctx, P, "fiber_unbounded_sp_channel_init", [("fiber_unbounded_sp_channel", "ready_signal", "param:signal")], calls=["spsc_fifo_init"], rule="init.sp",
                why="as for the unbounded channel")
-    from rules import check_zeroed_alloc
+    from rules import check_zeroed_alloc, check_alloc_size
+    check_alloc_size(ctx, P, "fiber_bounded_channel_create", "fiber_bounded_channel", "bounded.create.size",
+                     "a block smaller than the capacity stored in `size`: messages are written outside the channel (heap overflow) and lost")
+    check_alloc_size(ctx, P, "fiber_multi_channel_create", "fiber_multi_channel", "multi.create.size", "as for the bounded channel")
     check_zeroed_alloc(ctx, P, "fiber_bounded_channel_create", "bounded.create.zero", "the message slots of a new bounded channel",
                        "NULL marks a free / not yet written slot: on a stale non-NULL slot the sender yields for ever and the receiver sleeps on a signal "
                        "that is never raised; a stale pointer can also be delivered as a message that was never sent")
